@@ -1395,6 +1395,11 @@ func SupportedTcbLevelsFromCollateral(quote any, options *Options) (pcs.TcbLevel
 	if options == nil {
 		return pcs.TcbLevel{}, pcs.TcbLevel{}, ErrOptionsNil
 	}
+	if options.Now == nil {
+		opts := *options
+		opts.Now = defaultTimeSet()
+		options = &opts
+	}
 	if err := verifyCollateral(options); err != nil {
 		return pcs.TcbLevel{}, pcs.TcbLevel{}, err
 	}
@@ -1465,7 +1470,11 @@ func tdxQuoteV4(quote *pb.QuoteV4, options *Options) error {
 	options.pckCertExtensions = exts
 	options.chain = chain
 	if options.Now == nil {
-		options.Now = defaultTimeSet()
+		// An unset time set means "now" at every call: use the current time for this
+		// verification only instead of pinning the caller's options to the first call.
+		opts := *options
+		opts.Now = defaultTimeSet()
+		return verifyEvidenceV4(quote, &opts)
 	}
 	return verifyEvidenceV4(quote, options)
 }
